@@ -7,7 +7,9 @@ package zzvenv
 import (
 	"errors"
 	"fmt"
+	"io"
 	"net"
+	"os"
 	"syscall"
 	"time"
 	"unsafe"
@@ -111,6 +113,11 @@ type World struct {
 	// privilege. KernelSame counts agreeing verdicts, KernelDiff lists disagreements, KernelErr is
 	// set when the comparison could not be made (then nothing is counted).
 	KernelBPF  bool
+	// SlowStdout, when set, turns the program's standard output into a pipe with a slow reader: the
+	// n-th write (0-based) of p delivers p[:split], then blocks for d of virtual time, then delivers
+	// the rest. What has been delivered when the program exits is all the reader ever gets.
+	SlowStdout func(n int, p []byte) (split int, d time.Duration)
+	stdoutN    int
 	// Servers: the scripted TCP peers of the virtual network (vnet.go), by "ip:port"
 	Servers map[string]*VServer
 	KernelSame int
@@ -448,4 +455,38 @@ func NewRateLimit(rate int, opts ...ratelimit.Option) ratelimit.Limiter {
 	}
 	W.Limiters++
 	return countingLimiter{ratelimit.New(rate, append(opts, ratelimit.WithClock(vclock{}))...)}
+}
+
+// ---- standard output ----
+
+// Stdout is what the program writes its records to (os.Stdout in the product code).
+func Stdout() io.Writer {
+	if W != nil && W.SlowStdout != nil {
+		return vStdout{}
+	}
+	return os.Stdout
+}
+
+type vStdout struct{}
+
+func (vStdout) Write(p []byte) (n int, err error) {
+	split, d := len(p), time.Duration(0)
+	vs.Visible("stdout.write", func() {
+		split, d = W.SlowStdout(W.stdoutN, p)
+		W.stdoutN++
+		if split > len(p) {
+			split = len(p)
+		}
+		n, err = os.Stdout.Write(p[:split])
+	})
+	if err != nil || (split == len(p) && d == 0) {
+		return
+	}
+	vs.Sleep(d)
+	vs.Visible("stdout.write", func() {
+		var m int
+		m, err = os.Stdout.Write(p[split:])
+		n += m
+	})
+	return
 }
